@@ -6,6 +6,7 @@ import (
 	"errors"
 	"fmt"
 	"math/big"
+	"sort"
 
 	"github.com/drand/drand/v2/common"
 	"github.com/drand/drand/v2/internal/chain"
@@ -244,5 +245,68 @@ func (n *Net) extraNodes() []*Node {
 	for _, nd := range n.extra {
 		out = append(out, nd)
 	}
+	return out
+}
+
+// CheckThreshold (C03; sync must be off so that every Put comes from aggregation): a node's first Put of round R requires
+// valid partials for exactly (R, prev-as-put) from >= t distinct live members whose delivery to that node started before the Put
+// (its own partial counts if it emitted one for (R, prev) no later than the step of the Put).
+// epochAt returns the epoch (polynomial, members, threshold) that is live for round R.
+func (n *Net) CheckThreshold(epochAt func(round uint64) *fx.Net) *Finding {
+	n.mu.Lock()
+	tap := append([]*PartialEvent(nil), n.Tap...)
+	n.mu.Unlock()
+	for _, nd := range n.Nodes {
+		if nd.Rec == nil {
+			continue
+		}
+		seen := map[uint64]bool{}
+		for _, put := range nd.Rec.History() {
+			if put.Err != "" || put.Round == 0 || seen[put.Round] {
+				continue
+			}
+			seen[put.Round] = true
+			e := epochAt(put.Round)
+			prev := put.Prev
+			if fx.Chained(n.Cfg.Scheme) && len(prev) == 0 {
+				// trimmed stores strip nothing at Put time; chained puts always carry prev
+			}
+			V := map[int]bool{}
+			for _, ev := range tap {
+				if ev.Round != put.Round {
+					continue
+				}
+				if fx.Chained(n.Cfg.Scheme) && !bytes.Equal(ev.Prev, prev) {
+					continue
+				}
+				own := ev.From == nd.Pos && !ev.Injected
+				if own {
+					if ev.Step > put.Step {
+						continue
+					}
+				} else {
+					if ev.To != nd.Pos || !ev.Started || ev.Seq > put.Seq {
+						continue
+					}
+				}
+				if idx := n.ValidPartialIndex(e, put.Round, prev, ev.Sig); idx >= 0 {
+					V[idx] = true
+				}
+			}
+			if len(V) < e.T {
+				return &Finding{"C03/beacon-below-threshold", fmt.Sprintf("node %d stored round %d although only %d distinct valid member partials for that (round, previous signature) had reached it (threshold %d): indices %v",
+					nd.Pos, put.Round, len(V), e.T, keys(V)), map[string]any{"node": nd.Pos, "round": put.Round, "have": keys(V), "threshold": e.T}}
+			}
+		}
+	}
+	return nil
+}
+
+func keys(m map[int]bool) []int {
+	var out []int
+	for k := range m {
+		out = append(out, k)
+	}
+	sort.Ints(out)
 	return out
 }
